@@ -127,11 +127,11 @@ def check_case(ctx, case):
     ns = {"__body": rec}
     src, ns = gs.render(full, fname, kind=kind, ret_ann=case.get("ret_ann"), ns=ns)
     try:
-        raw = gs.compile_fn(src, ns, fname)
+        raw = gs.compile_fn(src, ns, fname, postponed=bool(case.get("postponed", True)))
     except SyntaxError as e:
         raise AssertionError(f"harness generated invalid source: {src}") from e
     if kind == "lambda" and case.get("lambda_annotations"):
-        raw.__annotations__ = {p["name"]: gs.ann_object(p["ann"], i) for i, p in enumerate(full) if gs.ann_object(p["ann"], i) is not None}
+        raw.__annotations__ = {p["name"]: gs.ann_object_resolved(p["ann"], i) for i, p in enumerate(full) if gs.ann_object(p["ann"], i) is not None}
     if kind == "lambda":
         raw.__doc__ = "docstring of the original"
     via = case.get("via")
@@ -160,7 +160,7 @@ def check_case(ctx, case):
             return inner(*a, **k)
 
         kind = "async"
-    info = f"source={src!r} descriptor={desc} checker={ck} via={via}"
+    info = f"source={src!r} descriptor={desc} checker={ck} via={via} postponed_annotations={bool(case.get('postponed', True))}"
     wrap = {"function": lambda f: f, "method": lambda f: f, "classmethod": classmethod, "staticmethod": staticmethod, "property": property}[desc]
     tc = gc.checker(ck)
     try:
@@ -261,7 +261,7 @@ def check_case(ctx, case):
                 continue
             if p["kind"] in ("va", "vk") and (ck == "beartype" or True):
                 continue
-            for bad_none in ((False, True) if p["kind"] in ("po", "pk", "ko") else (False,)):
+            for bad_none in ((False, True) if p["kind"] in ("po", "pk", "ko") and p["ann"] != "fwd" else (False,)):  # (None is fine for Optional[...])
                 # the ill-typed value is an ordinary wrong object, or an explicit None (not acceptable for int / str / array parameters,
                 # whatever their default is)
                 made = gs.make_args(params, bad_at=i, style_seed=case["styles"][0], bad_none=bad_none)
@@ -348,6 +348,7 @@ def c07_case(draw):
         "checker": draw(st.sampled_from(["beartype", "typeguard"])),
         "styles": [0, draw(st.integers(1, 15)), 15, draw(st.integers(16, 31))],
         "ret_ann": draw(st.sampled_from(["obj", None, "iterator", None])) if kind != "async" else draw(st.sampled_from([None, "obj"])),
+        "postponed": draw(st.sampled_from([False, True])),  # evaluated annotation objects / 'from __future__ import annotations'
         "body_exc": draw(st.sampled_from(["ValueError", "RecursionError", "ValueError", "MemoryError", "LookupError"])),
         "lambda_annotations": draw(st.sampled_from([True, False])),
         "via": draw(st.sampled_from([None, "wraps", None, "asyncwrap", None])),
